@@ -32,7 +32,20 @@ var (
 	propVals = []string{"v", "Ω verification", "值 二", "(paren) \\ back", "line1 line2", "𝔞 astral", "ﬁ ligature é", "#/%<>[]"}
 	layouts  = []string{"SinglePage", "TwoColumnLeft", "TwoColumnRight", "TwoPageLeft", "TwoPageRight", "OneColumn"}
 	modes    = []string{"UseNone", "UseOutlines", "UseThumbs", "FullScreen", "UseOC", "UseAttachments"}
-	vpBools  = []string{"HideToolbar", "HideMenubar", "HideWindowUI", "FitWindow", "CenterWindow", "DisplayDocTitle"}
+	vpBools  = []string{"HideToolbar", "HideMenubar", "HideWindowUI", "FitWindow", "CenterWindow", "DisplayDocTitle", "PickTrayByPDFSize"}
+	vpBoxes  = []string{"ViewArea", "ViewClip", "PrintArea", "PrintClip"} // PDF 1.4 to 1.7; the corpus documents are 1.7
+	vpKeys   = append(append(append([]string{}, vpBools...), vpBoxes...), "Direction", "PrintScaling", "Duplex", "NumCopies", "NonFullScreenPageMode")
+	vpValues = func() map[string][]string {
+		m := map[string][]string{"Direction": {"0", "1"}, "PrintScaling": {"0", "1"}, "Duplex": {"0", "1", "2"}, "NumCopies": {"1", "2", "5"}, "NonFullScreenPageMode": {"0", "1", "2", "3"}}
+		for _, k := range vpBools {
+			m[k] = []string{"true", "false"}
+		}
+		for _, k := range vpBoxes {
+			m[k] = []string{"0", "1", "2", "3", "4"} // MediaBox CropBox TrimBox BleedBox ArtBox
+		}
+		return m
+	}()
+	attDescs = []string{"Příloha", "说明 书", "desc (1)"}
 	attNames = []string{"a.txt", "b.bin", "ünï.dat", "with space.txt", "c.json", "Z.TXT"}
 )
 
@@ -41,14 +54,15 @@ type c35Model struct {
 	Props  map[string]string
 	Layout string
 	Mode   string
-	VP     map[string]bool // only the boolean preferences the alphabet uses; absent key = not set
+	VP     map[string]string // preference -> value as text ("true", "R2L", "TrimBox", "3"); absent key = not set
 	HasVP  bool
 	Att    map[string]string // id -> sha256 of content
+	Desc   map[string]string // id -> description (absent = none)
 	XMP    bool              // catalog carries an XMP metadata stream
 }
 
 func (m *c35Model) Clone() Model {
-	c := &c35Model{KW: map[string]bool{}, Props: map[string]string{}, VP: map[string]bool{}, Att: map[string]string{}, Layout: m.Layout, Mode: m.Mode, HasVP: m.HasVP, XMP: m.XMP}
+	c := &c35Model{KW: map[string]bool{}, Props: map[string]string{}, VP: map[string]string{}, Att: map[string]string{}, Desc: map[string]string{}, Layout: m.Layout, Mode: m.Mode, HasVP: m.HasVP, XMP: m.XMP}
 	for k, v := range m.KW {
 		c.KW[k] = v
 	}
@@ -60,6 +74,9 @@ func (m *c35Model) Clone() Model {
 	}
 	for k, v := range m.Att {
 		c.Att[k] = v
+	}
+	for k, v := range m.Desc {
+		c.Desc[k] = v
 	}
 	return c
 }
@@ -76,7 +93,11 @@ func (m *c35Model) String() string {
 	}
 	sb.WriteString("} att={")
 	for _, k := range sortedKeys(m.Att) {
-		fmt.Fprintf(&sb, "%q:%s ", k, m.Att[k][:8])
+		fmt.Fprintf(&sb, "%q:%s", k, m.Att[k][:8])
+		if d := m.Desc[k]; d != "" {
+			fmt.Fprintf(&sb, "(%q)", d)
+		}
+		sb.WriteString(" ")
 	}
 	sb.WriteString("}")
 	return sb.String()
@@ -86,7 +107,7 @@ type c35Args struct {
 	List []string          `json:"list,omitempty"`
 	Map  map[string]string `json:"map,omitempty"`
 	Val  string            `json:"val,omitempty"`
-	VP   map[string]bool   `json:"vp,omitempty"`
+	VP   map[string]string `json:"vp,omitempty"`
 }
 
 func attContent(name string) []byte {
@@ -189,7 +210,7 @@ func (m *c35Model) Apply(s Step) bool {
 		m.HasVP = true
 		return true
 	case "vp-reset":
-		m.VP = map[string]bool{}
+		m.VP = map[string]string{}
 		m.HasVP = false
 		return true
 	case "att-add":
@@ -199,7 +220,29 @@ func (m *c35Model) Apply(s Step) bool {
 		for _, n := range a.List {
 			h := sha256.Sum256(attContent(n))
 			m.Att[n] = hex.EncodeToString(h[:])
+			delete(m.Desc, n)
+			if d := a.Map[n]; d != "" {
+				m.Desc[n] = d
+			}
 		}
+		return true
+	case "att-remove-by-desc":
+		// the one attachment carrying this description (the generator makes sure there is exactly one
+		// and that the text is not an attachment id)
+		id := ""
+		for k, d := range m.Desc {
+			if d == a.Val {
+				if id != "" {
+					return false
+				}
+				id = k
+			}
+		}
+		if id == "" {
+			return false
+		}
+		delete(m.Att, id)
+		delete(m.Desc, id)
 		return true
 	case "att-remove":
 		if len(a.List) == 0 {
@@ -207,6 +250,7 @@ func (m *c35Model) Apply(s Step) bool {
 				return false
 			}
 			m.Att = map[string]string{}
+			m.Desc = map[string]string{}
 			return true
 		}
 		for _, n := range a.List {
@@ -216,17 +260,142 @@ func (m *c35Model) Apply(s Step) bool {
 		}
 		for _, n := range a.List {
 			delete(m.Att, n)
+			delete(m.Desc, n)
 		}
 		return true
 	}
 	return false
 }
 
+// vpSet / vpGet address one viewer preference by name; enumerations travel as their numeric value
+// so that neither side depends on pdfcpu's name tables.
+func vpSet(vp *model.ViewerPreferences, k, v string) error {
+	b := v == "true"
+	n := 0
+	fmt.Sscanf(v, "%d", &n)
+	switch k {
+	case "HideToolbar":
+		vp.HideToolbar = &b
+	case "HideMenubar":
+		vp.HideMenubar = &b
+	case "HideWindowUI":
+		vp.HideWindowUI = &b
+	case "FitWindow":
+		vp.FitWindow = &b
+	case "CenterWindow":
+		vp.CenterWindow = &b
+	case "DisplayDocTitle":
+		vp.DisplayDocTitle = &b
+	case "PickTrayByPDFSize":
+		vp.PickTrayByPDFSize = &b
+	case "ViewArea":
+		x := model.PageBoundary(n)
+		vp.ViewArea = &x
+	case "ViewClip":
+		x := model.PageBoundary(n)
+		vp.ViewClip = &x
+	case "PrintArea":
+		x := model.PageBoundary(n)
+		vp.PrintArea = &x
+	case "PrintClip":
+		x := model.PageBoundary(n)
+		vp.PrintClip = &x
+	case "Direction":
+		x := model.Direction(n)
+		vp.Direction = &x
+	case "PrintScaling":
+		x := model.PrintScaling(n)
+		vp.PrintScaling = &x
+	case "Duplex":
+		x := model.PaperHandling(n)
+		vp.Duplex = &x
+	case "NumCopies":
+		vp.SetNumCopies(n)
+	case "NonFullScreenPageMode":
+		x := nfsModes[n%len(nfsModes)]
+		vp.NonFullScreenPageMode = &x
+	default:
+		return fmt.Errorf("harness: unknown viewer preference %s", k)
+	}
+	return nil
+}
+
+func vpGet(vp *model.ViewerPreferences, k string) (string, bool) {
+	bs := func(p *bool) (string, bool) {
+		if p == nil {
+			return "", false
+		}
+		return fmt.Sprint(*p), true
+	}
+	switch k {
+	case "HideToolbar":
+		return bs(vp.HideToolbar)
+	case "HideMenubar":
+		return bs(vp.HideMenubar)
+	case "HideWindowUI":
+		return bs(vp.HideWindowUI)
+	case "FitWindow":
+		return bs(vp.FitWindow)
+	case "CenterWindow":
+		return bs(vp.CenterWindow)
+	case "DisplayDocTitle":
+		return bs(vp.DisplayDocTitle)
+	case "PickTrayByPDFSize":
+		return bs(vp.PickTrayByPDFSize)
+	case "ViewArea":
+		if vp.ViewArea != nil {
+			return fmt.Sprint(int(*vp.ViewArea)), true
+		}
+	case "ViewClip":
+		if vp.ViewClip != nil {
+			return fmt.Sprint(int(*vp.ViewClip)), true
+		}
+	case "PrintArea":
+		if vp.PrintArea != nil {
+			return fmt.Sprint(int(*vp.PrintArea)), true
+		}
+	case "PrintClip":
+		if vp.PrintClip != nil {
+			return fmt.Sprint(int(*vp.PrintClip)), true
+		}
+	case "Direction":
+		if vp.Direction != nil {
+			return fmt.Sprint(int(*vp.Direction)), true
+		}
+	case "PrintScaling":
+		if vp.PrintScaling != nil {
+			return fmt.Sprint(int(*vp.PrintScaling)), true
+		}
+	case "Duplex":
+		if vp.Duplex != nil {
+			return fmt.Sprint(int(*vp.Duplex)), true
+		}
+	case "NumCopies":
+		if vp.NumCopies != nil {
+			return fmt.Sprint(int(*vp.NumCopies)), true
+		}
+	case "NonFullScreenPageMode":
+		if vp.NonFullScreenPageMode != nil {
+			for i, x := range nfsModes {
+				if x == *vp.NonFullScreenPageMode {
+					return fmt.Sprint(i), true
+				}
+			}
+			return fmt.Sprintf("?%d", int(*vp.NonFullScreenPageMode)), true
+		}
+	}
+	return "", false
+}
+
+// the exported constants of the API, in the order the alphabet numbers them
+var nfsModes = []model.NonFullScreenPageMode{model.NFSPageModeUseNone, model.NFSPageModeUseOutlines, model.NFSPageModeUseThumb, model.NFSPageModeUseOC}
+
 type c35Store struct{}
 
 func (c35Store) ID() string { return "C35" }
 func (c35Store) Docs() []string {
-	return []string{"zineTest.pdf", "test.pdf", "Walden.pdf", "testWithText.pdf"}
+	// xdp_2.0.pdf and T4.pdf carry their keywords in the catalog's XMP metadata stream as well
+	return []string{"zineTest.pdf", "test.pdf", "Walden.pdf", "xdp_2.0.pdf", "testWithText.pdf", "T4.pdf"}
 }
 func (c35Store) Materialise(doc, path string) error {
 	b, err := os.ReadFile(filepath.Join("/repo/pkg/testdata", doc))
@@ -264,6 +433,15 @@ func (c35Store) Valid(mm Model, s Step) bool {
 			}
 		}
 		return present == 0 || present == len(a.List)
+	case "att-remove-by-desc":
+		n := 0
+		for _, d := range m.Desc {
+			if d == a.Val {
+				n++
+			}
+		}
+		_, isID := m.Att[a.Val]
+		return n == 1 && !isID
 	case "kw-remove":
 		return len(a.List) > 0 || len(m.KW) > 0
 	case "prop-remove":
@@ -275,7 +453,7 @@ func (c35Store) Valid(mm Model, s Step) bool {
 func dsConf() *model.Configuration { return model.NewDefaultConfiguration() }
 
 func (s c35Store) observeModel(path string) (*c35Model, error) {
-	m := &c35Model{KW: map[string]bool{}, Props: map[string]string{}, VP: map[string]bool{}, Att: map[string]string{}}
+	m := &c35Model{KW: map[string]bool{}, Props: map[string]string{}, VP: map[string]string{}, Att: map[string]string{}, Desc: map[string]string{}}
 	b, err := os.ReadFile(path)
 	if err != nil {
 		return nil, err
@@ -315,9 +493,9 @@ func (s c35Store) observeModel(path string) (*c35Model, error) {
 	}
 	if vp != nil {
 		m.HasVP = true
-		for name, p := range map[string]*bool{"HideToolbar": vp.HideToolbar, "HideMenubar": vp.HideMenubar, "HideWindowUI": vp.HideWindowUI, "FitWindow": vp.FitWindow, "CenterWindow": vp.CenterWindow, "DisplayDocTitle": vp.DisplayDocTitle} {
-			if p != nil {
-				m.VP[name] = *p
+		for _, k := range vpKeys {
+			if v, ok := vpGet(vp, k); ok {
+				m.VP[k] = v
 			}
 		}
 	}
@@ -342,6 +520,14 @@ func (s c35Store) observeModel(path string) (*c35Model, error) {
 		}
 		h := sha256.Sum256(data)
 		m.Att[a.ID] = hex.EncodeToString(h[:])
+	}
+	for _, a := range listed {
+		if _, ok := m.Att[a.ID]; !ok {
+			return nil, fmt.Errorf("attachment %q is listed but not extracted", a.ID)
+		}
+		if a.Desc != "" {
+			m.Desc[a.ID] = a.Desc
+		}
 	}
 	return m, nil
 }
@@ -437,9 +623,10 @@ func (c35Store) Gen(rng *rand.Rand, mm Model, aux string) Step {
 		case 10:
 			return step("mode-set", c35Args{Val: modes[rng.IntN(len(modes))]})
 		case 11:
-			vp := map[string]bool{}
-			for _, k := range pick(rng, vpBools, 1+rng.IntN(3)) {
-				vp[k] = rng.IntN(2) == 0
+			vp := map[string]string{}
+			for _, k := range pick(rng, vpKeys, 1+rng.IntN(3)) {
+				vals := vpValues[k]
+				vp[k] = vals[rng.IntN(len(vals))]
 			}
 			return step("vp-set", c35Args{VP: vp})
 		case 12:
@@ -455,7 +642,14 @@ func (c35Store) Gen(rng *rand.Rand, mm Model, aux string) Step {
 				}
 			}
 			if len(free) > 0 {
-				return step("att-add", c35Args{List: pick(rng, free, 1+rng.IntN(2))})
+				l := pick(rng, free, 1+rng.IntN(2))
+				descs := map[string]string{}
+				for _, n := range l {
+					if rng.IntN(2) == 0 {
+						descs[n] = attDescs[rng.IntN(len(attDescs))] + " " + n
+					}
+				}
+				return step("att-add", c35Args{List: l, Map: descs})
 			}
 		case 15:
 			// a list mixing present and absent ids is not generated: the API treats it as a failure,
@@ -470,6 +664,14 @@ func (c35Store) Gen(rng *rand.Rand, mm Model, aux string) Step {
 				if len(absent) > 0 {
 					return step("att-remove", c35Args{List: pick(rng, absent, 1)})
 				}
+			}
+			if len(m.Desc) > 0 && rng.IntN(3) == 0 {
+				// address an attachment by its description instead of its id; whether the API supports
+				// that is its choice (MayReject), but a reported success must have removed exactly it
+				ids := sortedKeys(m.Desc)
+				st := step("att-remove-by-desc", c35Args{Val: m.Desc[ids[rng.IntN(len(ids))]]})
+				st.MayReject = true
+				return st
 			}
 			if l := existing(sortedKeys(m.Att), 1+rng.IntN(2)); l != nil {
 				return step("att-remove", c35Args{List: l})
@@ -509,20 +711,8 @@ func (c35Store) Exec(s Step, path, aux string) error {
 	case "vp-set":
 		vp := model.ViewerPreferences{}
 		for k, v := range a.VP {
-			v := v
-			switch k {
-			case "HideToolbar":
-				vp.HideToolbar = &v
-			case "HideMenubar":
-				vp.HideMenubar = &v
-			case "HideWindowUI":
-				vp.HideWindowUI = &v
-			case "FitWindow":
-				vp.FitWindow = &v
-			case "CenterWindow":
-				vp.CenterWindow = &v
-			case "DisplayDocTitle":
-				vp.DisplayDocTitle = &v
+			if err := vpSet(&vp, k, v); err != nil {
+				return err
 			}
 		}
 		return api.SetViewerPreferencesFile(path, "", vp, dsConf())
@@ -531,9 +721,15 @@ func (c35Store) Exec(s Step, path, aux string) error {
 	case "att-add":
 		var files []string
 		for _, n := range a.List {
-			files = append(files, filepath.Join(aux, n))
+			f := filepath.Join(aux, n)
+			if d := a.Map[n]; d != "" {
+				f += "," + d // "file,description"
+			}
+			files = append(files, f)
 		}
 		return api.AddAttachmentsFile(path, "", files, false, dsConf())
+	case "att-remove-by-desc":
+		return api.RemoveAttachmentsFile(path, "", []string{a.Val}, dsConf())
 	case "att-remove":
 		return api.RemoveAttachmentsFile(path, "", a.List, dsConf())
 	}
@@ -541,8 +737,8 @@ func (c35Store) Exec(s Step, path, aux string) error {
 }
 
 func init() {
-	core.Register(histProp{id: "C35", store: c35Store{}, maxLen: 10, quickN: 40, thoroughN: 2500,
-		rule: "seeded histories of 1-10 edits (keywords add/remove/remove-all, properties add/remove/remove-all, page layout and page mode set/reset, viewer preferences set/reset, attachments add/remove) over small Unicode/special-character alphabets on corpus documents, each edit through the in-place file API; after every step the listing and the extracted attachment bytes are compared with a map/set model. Half of the batches inject, in about one step of four, an errno / short write / full disk / writer panic / crash snapshot at a seeded mutating file-system call of that step. Distinct by (document, step sequence incl. faults); non-trivial when at least one step succeeded.",
+	core.Register(histProp{id: "C35", store: c35Store{}, maxLen: 10, quickDocs: 4, quickN: 40, thoroughN: 2500,
+		rule: "seeded histories of 1-10 edits (keywords add/remove/remove-all, properties add/remove/remove-all, page layout and page mode set/reset, viewer preferences set/reset (17 preferences: flags, direction, view/print area and clip, print scaling, duplex, copies, non-full-screen page mode), attachments add/remove) over small Unicode/special-character alphabets on corpus documents, each edit through the in-place file API; after every step the listing and the extracted attachment bytes are compared with a map/set model. Half of the batches inject, in about one step of four, an errno / short write / full disk / writer panic / crash snapshot at a seeded mutating file-system call of that step. Distinct by (document, step sequence incl. faults); non-trivial when at least one step succeeded.",
 		assumptions: []string{
 			"keyword alphabet excludes ',' ';' and leading/trailing blanks (the Keywords entry is one separator-joined string, those are not representable); property keys exclude the standard Info keys (they are not listed as properties); re-adding a present attachment id is not generated (the statement does not say whether it replaces or duplicates)",
 			"removing something absent is an error of the API and leaves the model unchanged; remove-all of properties also counts the catalog's XMP metadata stream as something removed",
